@@ -230,6 +230,27 @@ def gen_histb(rng, big=False):
                                                     commuting=commuting))
 
 
+def gen_fill_refresh(rng, count):
+    """deterministic part of every tier: ILU(p >= 1) histories whose level-p pattern has REAL fill-in (positions that
+    `copy_data` must reset to zero) and at least three `init_numeric` calls with value updates in between, so that
+    stale fill-in entries of an earlier factorisation would be visible (model/impl disagreement + oracle)."""
+    cases = []
+    while len(cases) < count:
+        n = rng.choice([3, 4, 5, 6, 7, 8])
+        style, rows = gen_pattern(rng, n, rng.choice(["arrow", "sparse", "band2", "tri", "dense"]))
+        p = rng.choice([1, 1, 2, 3, n])
+        pat = level_pattern(n, rows, p)
+        if sum(map(len, pat)) <= sum(map(len, rows)):
+            continue   # no fill-in at this level
+        steps = ["S", "N", "A " + fmt_q(rand_vec(rng, n))]
+        for _ in range(rng.randint(2, 4)):
+            steps += ["U " + fmt_q(gen_values(rng, rows)), "N", "A " + fmt_q(rand_vec(rng, n))]
+        steps.append("D")
+        cases.append("hist ilu %d 1/1 %s %s %d %s" % (p, fmt_csr(rows, gen_values(rng, rows)), fmt_n(gen_filter(rng, n)),
+                                                    len(steps), " ".join(steps)))
+    return cases
+
+
 def gen_cases(rng, count, big=False):
     cases = []
     for _ in range(count):
@@ -727,10 +748,11 @@ def oracle(case, out):
 
 
 def model_filter(case):
-    """BCSR histories have a Lean model for the SOR / SSOR sweeps only (generic blocked sweeps, Model/Solver/Blocked)"""
+    """BCSR histories have a Lean model for the SOR / SSOR sweeps (generic blocked sweeps, Model/Solver/Blocked) and for
+    ILU (the scalar ILU model instantiated at the non-commutative ring of bs x bs rational matrices)"""
     if not case.startswith("histb"):
         return True
-    return case.split(" ", 3)[2] in ("sor", "ssor")
+    return case.split(" ", 3)[2] in ("sor", "ssor", "ilu")
 
 
 def canon(out):
@@ -790,6 +812,8 @@ def describe(case):
             keys.append("updates:%d" % nu)
             if t[-1] != "D":
                 keys.append("history:open-or-erroneous")
+            if kind == "ilu" and op == "hist" and sum(1 for x in t if x == "N") >= 3 and nu >= 2 and int(t[2]) >= 1:
+                keys.append("ilu:p>=1,>=3-init_numeric")
     return keys
 
 
@@ -816,6 +840,7 @@ def main(argv):
         if os.path.isdir(cdir):
             for fn in sorted(os.listdir(cdir)):
                 cases += [l.strip() for l in open(os.path.join(cdir, fn)) if l.strip() and not l.startswith("#")]
+        cases += gen_fill_refresh(rng, 300 if args.tier == "quick" else 3000)
         cases += gen_cases(rng, 12000) if args.tier == "quick" else gen_cases(rng, 150000, big=True)
     st = vlib.Stream("precond", cases, [binary], vlib.driver_cmd(PROP), oracle=oracle, nontrivial=nontrivial,
                      describe=describe, signature=signature, canon=canon,
@@ -829,6 +854,6 @@ def main(argv):
         "Index modelled as unbounded Nat (no 64-bit overflow at the sizes FEAT can allocate)",
         "exact arithmetic: the scalar type is Q (GMP rationals); floating-point rounding is not covered by this check",
         "matrices store their diagonal entry and have sorted rows (documented precondition of the sweeps and of ILU)",
-        "BCSR (square-blocked) SOR / SSOR are compared with the generic blocked Lean model (bs x bs rational blocks); blocked "
-        "Jacobi / ILU / matrix preconditioners are judged by the independent oracle only"],
+        "BCSR (square-blocked) SOR / SSOR / ILU are compared with the Lean models run at bs x bs rational blocks; blocked "
+        "Jacobi / matrix preconditioners are judged by the independent oracle only"],
         extra_cov={"rule": stats_rule})
